@@ -130,6 +130,9 @@ type c20Exec struct {
 	viols  []c20Finding
 	track  string // in-flight marker file
 	noHist bool
+	// maxRestarts bounds the number of "restart" events of one history (exploration
+	// budget; 0 = the event is never enabled). Replays of recorded cases have no bound.
+	maxRestarts int
 }
 
 func c20NewExec(t *testing.T, space string, cfg c20Cfg, stats *c20Stats) (*c20Exec, error) {
@@ -138,7 +141,7 @@ func c20NewExec(t *testing.T, space string, cfg c20Cfg, stats *c20Stats) (*c20Ex
 		return nil, err
 	}
 	atomic.AddInt64(&stats.worlds, 1)
-	return &c20Exec{t: t, space: space, cfg: cfg, stats: stats, w: w, model: c20NewModel()}, nil
+	return &c20Exec{t: t, space: space, cfg: cfg, stats: stats, w: w, model: c20NewModel(cfg), maxRestarts: 1 << 30}, nil
 }
 
 func (e *c20Exec) Close() {
@@ -243,6 +246,25 @@ func (e *c20Exec) Do(op string) error {
 		err  error
 	)
 	switch {
+	case op == "restart":
+		kind = "restart"
+		if e.model.restarts >= e.maxRestarts {
+			// budget used up: the event is not enabled (and not recorded)
+			e.ops = e.ops[:len(e.ops)-1]
+			return nil
+		}
+		if obs, err = e.w.Restart(); err != nil {
+			return err
+		}
+		v = e.model.stepRestart()
+	case op == "prune":
+		kind = "prune"
+		if obs, err = e.w.Prune(); err != nil {
+			return err
+		}
+		// the tick falls somewhere inside the hour that passes; every timestamp of
+		// the alphabets is at least half a day away from the two-week horizon
+		v = e.model.stepPrune(obs.Now + int64(c20PruneInterval/time.Second)/2)
 	case op == "blk":
 		kind = "blk"
 		if e.model.tip >= c20HeightFut {
@@ -304,11 +326,14 @@ func (e *c20Exec) Do(op string) error {
 	// The model returns the set of acceptable graphs after the step (one, unless
 	// lnd processes several messages concurrently in this step).
 	changed := !reflect.DeepEqual(obs.Graph, pre)
-	var matches []int
+	var matches, graphMatches []int
 	mayChange, mustChange := false, true
 	for i, f := range v.Finals {
 		if reflect.DeepEqual(obs.Graph, f) {
-			matches = append(matches, i)
+			graphMatches = append(graphMatches, i)
+			if v.After[i].zombiesConsistent(obs.Zombies) == "" {
+				matches = append(matches, i)
+			}
 		}
 		if reflect.DeepEqual(f, pre) {
 			mustChange = false
@@ -321,21 +346,38 @@ func (e *c20Exec) Do(op string) error {
 	opc := c20OpClass(op)
 	diff := func() string { return c20Diff(pre, obs.Graph, v.Finals[0]) }
 
+	unreadable := ""
+	for _, l := range obs.Graph {
+		if strings.HasPrefix(l, "ERR ") {
+			unreadable = l
+		}
+	}
 	switch {
+	case kind == "restart" && strings.HasPrefix(obs.Verdict, "err"):
+		e.violate("restart-failed", opc,
+			fmt.Sprintf("lnd cannot be started again on its own graph database after %v: %s", e.ops[:len(e.ops)-1], c20Cut(obs.Verdict)))
+		outcome = "VIOLATION"
+	case unreadable != "":
+		e.violate("graph-unreadable", opc,
+			fmt.Sprintf("after %s (model: %s; gossiper verdict %q) the graph can no longer be read back from the store: %s", op, v.Why, c20Cut(obs.Verdict), unreadable))
+		outcome = "VIOLATION"
 	case changed && !mayChange:
 		e.violate("graph-changed-by-rejectable-message", opc,
-			fmt.Sprintf("%s (model: %s) changed the graph; gossiper verdict %q. %s", op, v.Why, obs.Verdict, diff()))
+			fmt.Sprintf("%s (model: %s) changed the graph; gossiper verdict %q. %s", op, v.Why, c20Cut(obs.Verdict), diff()))
 		outcome = "VIOLATION"
-	case changed && len(matches) == 0:
+	case changed && len(graphMatches) == 0:
 		e.violate("applied-differently", opc,
-			fmt.Sprintf("%s (model: %s) changed the graph, but not into the predicted state; gossiper verdict %q. %s", op, v.Why, obs.Verdict, diff()))
+			fmt.Sprintf("%s (model: %s) changed the graph, but not into the predicted state; gossiper verdict %q. %s", op, v.Why, c20Cut(obs.Verdict), diff()))
 		outcome = "VIOLATION"
 	case changed:
 		outcome = "applied"
+		if kind == "prune" {
+			outcome = "pruned"
+		}
 		e.stats.clause("safety:applied-exactly-as-predicted")
 	case !mayChange:
 		e.stats.clause("safety:rejectable-left-graph-unchanged")
-	case len(matches) > 0:
+	case len(graphMatches) > 0:
 		// unchanged, and an acceptable outcome (a block without held messages; a
 		// burst in which some serial order applies nothing)
 		outcome = "unchanged(acceptable)"
@@ -349,13 +391,44 @@ func (e *c20Exec) Do(op string) error {
 		if why == "" && vclass == "err:banned" && e.cfg.SamePeer {
 			why = "peer banned"
 		}
-		if why == "" {
+		if kind == "prune" {
+			e.violate("stale-channel-not-pruned", opc,
+				fmt.Sprintf("a prune tick passed (model: %s) but the graph did not change. %s", v.Why, diff()))
+			outcome = "VIOLATION"
+		} else if why == "" {
 			e.violate("valid-message-not-applied", opc,
-				fmt.Sprintf("%s is authentic, fresh and consistent (model: %s) but the graph did not change and no documented spam defence explains it; gossiper verdict %q. %s", op, v.Why, obs.Verdict, diff()))
+				fmt.Sprintf("%s is authentic, fresh and consistent (model: %s) but the graph did not change and no documented spam defence explains it; gossiper verdict %q. %s", op, v.Why, c20Cut(obs.Verdict), diff()))
 			outcome = "VIOLATION"
 		} else {
 			outcome = "suppressed"
 			e.stats.clause("completeness:drop-explained-by-documented-defence")
+		}
+	}
+
+	// zombie-index clause: the graph is as predicted; is the zombie index?
+	if outcome != "VIOLATION" && outcome != "suppressed" && len(graphMatches) > 0 {
+		if len(matches) == 0 {
+			clause, what := e.model.zombieVerdict(v, graphMatches, obs.Zombies)
+			if clause == "authorised-resurrection-refused" && e.cfg.SamePeer && (vclass == "err:recently-rejected" || vclass == "err:banned") {
+				// documented spam defences of the same-peer spaces
+				e.dead = "resurrection-dropped-by-spam-defence"
+				return nil
+			}
+			e.violate(clause, opc, fmt.Sprintf("%s (model: %s; gossiper verdict %q): %s; zombie index now %v", op, v.Why, c20Cut(obs.Verdict), what, obs.ZombieKey))
+			outcome = "VIOLATION"
+		} else {
+			was, is := len(e.model.zombies), len(v.After[matches[0]].zombies)
+			switch {
+			case is < was:
+				if outcome == "unchanged" || outcome == "unchanged(acceptable)" {
+					outcome = "resurrected"
+				}
+				e.stats.clause("zombie:entry-removed-only-by-authorised-fresh-update")
+			case was > 0 && kind == "cu":
+				e.stats.clause("zombie:entry-kept")
+			case is > was:
+				e.stats.clause("zombie:entry-added-by-prune-tick")
+			}
 		}
 	}
 
@@ -388,7 +461,7 @@ func (e *c20Exec) Do(op string) error {
 
 	if e.info != nil {
 		e.info("step %d %s: model=%s must-change=%v | gossiper verdict=%q graph-changed=%v outcome=%s broadcast=%d zombies=%v now=%d",
-			step, op, v.Why, mayChange && mustChange, obs.Verdict, changed, outcome, len(obs.Broadcast), obs.Zombies, obs.Now)
+			step, op, v.Why, mayChange && mustChange, c20Cut(obs.Verdict), changed, outcome, len(obs.Broadcast), obs.ZombieKey, obs.Now)
 		if changed {
 			e.info("        graph now: %s", strings.Join(obs.Graph, " ; "))
 		}
@@ -396,13 +469,13 @@ func (e *c20Exec) Do(op string) error {
 	if !e.quiet {
 		cls := fmt.Sprintf("%s|%s|%s|%s|%s|bcast=%d", e.space, kind, v.Why, outcome, vclass, len(obs.Broadcast))
 		e.stats.class(cls, func() any {
-			return map[string]any{"class": cls, "case": c20Case{Space: e.space, Cfg: e.cfg, Ops: append([]string{}, e.ops...)}, "gossiper_verdict": obs.Verdict}
+			return map[string]any{"class": cls, "case": c20Case{Space: e.space, Cfg: e.cfg, Ops: append([]string{}, e.ops...)}, "gossiper_verdict": c20Cut(obs.Verdict)}
 		})
 	}
 
 	// follow the implementation
 	switch outcome {
-	case "applied", "unchanged", "unchanged(acceptable)":
+	case "applied", "pruned", "resurrected", "unchanged", "unchanged(acceptable)":
 		if outcome == "unchanged" && e.cfg.SamePeer && vclass == "err:recently-rejected" {
 			// a message the gossiper refused to look at is neither held nor does
 			// it mark anything: the model stays where it was
@@ -426,6 +499,17 @@ func (e *c20Exec) Do(op string) error {
 		}
 	}
 	return nil
+}
+
+// c20Cut shortens a gossiper verdict (lnd dumps whole messages into its errors).
+func c20Cut(v string) string {
+	if i := strings.Index(v, "(*lnwire."); i > 0 {
+		v = v[:i] + "..."
+	}
+	if len(v) > 240 {
+		v = v[:240] + "..."
+	}
+	return v
 }
 
 func c20Diff(pre, got, want []string) string {
@@ -542,6 +626,10 @@ type c20Tier struct {
 	byteStride                               int      // 1 = every offset
 	semSQL, bytesSQL                         bool
 	deadline                                 time.Duration
+	// life-cycle spaces (c20LifecycleSpaces); depth 0 = not run in this tier
+	restartDepth, restartDepthSQL, restarts int
+	tinyDepth, tinyDepthSQL                 int
+	zombieDepth, zombieDepthSQL             int
 }
 
 var c20AlphabetCore = []string{
@@ -566,6 +654,8 @@ func c20Tiers(thorough bool) c20Tier {
 			samePeerAlphabet: append(append([]string{}, c20AlphabetCore...), "xCA.btc2:=evil,resigned"),
 			byteBases:        []string{"CA", "CU0b", "CU1b", "NA1b", "NA2"},
 			byteStride:       1, semSQL: true, bytesSQL: true, deadline: 26 * time.Minute,
+			restartDepth: 7, restartDepthSQL: 6, restarts: 2, tinyDepth: 6, tinyDepthSQL: 5,
+			zombieDepth: 6, zombieDepthSQL: 5,
 		}
 	} else {
 		tr = c20Tier{
@@ -575,6 +665,8 @@ func c20Tiers(thorough bool) c20Tier {
 			samePeerAlphabet: c20AlphabetCore,
 			byteBases:        []string{"CA", "CU0b", "NA1b"},
 			byteStride:       1, semSQL: true, deadline: 150 * time.Second,
+			restartDepth: 5, restartDepthSQL: 4, restarts: 1, tinyDepth: 4, tinyDepthSQL: 0,
+			zombieDepth: 4, zombieDepthSQL: 3,
 		}
 	}
 	geti := func(k string, d *int) {
@@ -586,7 +678,54 @@ func c20Tiers(thorough bool) c20Tier {
 	geti("VERIF_C20_DEPTH_SQL", &tr.orderDepthSQL)
 	geti("VERIF_C20_DEPTH_SAMEPEER", &tr.samePeerDepth)
 	geti("VERIF_C20_DEPTH_FLAGS", &tr.flagsDepth)
+	geti("VERIF_C20_DEPTH_RESTART", &tr.restartDepth)
+	geti("VERIF_C20_DEPTH_ZOMBIE", &tr.zombieDepth)
 	return tr
+}
+
+// c20LifecycleSpaces: restarts (every in-memory cache cold), one-entry store caches
+// (evictions) and the zombie life cycle.
+//
+// restart spaces: the channel is known (prefix); honest, correctly signed updates of
+// both directions at {older, equal, newer} timestamps (distinct content each), so
+// that every order relation between the two stored timestamps and the incoming one
+// occurs before and after a restart; a duplicate announcement and an update for
+// another scid (another cache entry). Freshness must be judged against the stored
+// policy whatever lnd has in memory.
+//
+// zombie spaces (with and without strict pruning): honest updates beyond the
+// two-week horizon (node_1 older / node_2 older / one side missing / one side
+// fresh), a prune tick, then updates of either direction signed by the right node,
+// by the other channel node and by a stranger, fresh and beyond the horizon; the
+// announcement again; a restart.
+func c20LifecycleSpaces(tier c20Tier) []c20SpaceDef {
+	restartAlphabet := []string{
+		"lCU0.cf=00.mf=01.ts=older", "lCU0.cf=00.mf=01.ts=equal", "lCU0.cf=00.mf=01.ts=newer",
+		"lCU1.cf=00.mf=01.ts=older", "lCU1.cf=00.mf=01.ts=equal", "lCU1.cf=00.mf=01.ts=newer",
+		"restart", "CA", "xCU.scid=tiny,signed",
+	}
+	zombieAlphabet := []string{
+		"oCU0.-16d", "oCU0.-15d", "oCU1.-15d12h", "CU0a", "CU1a", "prune",
+		"CU0b", "CU1b", "xCU.sig=other-node", "xCU.dir=1,signed-by-node1", "xCU.sig=evil", "xCU1.sig=evil",
+		"oCU0.-14d12h", "oCU1.-14d12h", "CA", "restart",
+	}
+	pre := []string{"CA"}
+	var sp []c20SpaceDef
+	add := func(name string, cfg c20Cfg, alphabet []string, depth, restarts int) {
+		if depth > 0 {
+			sp = append(sp, c20SpaceDef{name: name, cfg: cfg, alphabet: alphabet, depth: depth, dedup: true, prefix: pre, maxRestarts: restarts})
+		}
+	}
+	add("order/restart/kv", c20Cfg{Backend: "kv", LazyViews: true}, restartAlphabet, tier.restartDepth, tier.restarts)
+	add("order/restart-views/kv", c20Cfg{Backend: "kv"}, restartAlphabet, tier.restartDepth-1, 1)
+	add("order/restart/sql", c20Cfg{Backend: "sql", LazyViews: true}, restartAlphabet, tier.restartDepthSQL, 1)
+	add("order/tiny-cache/kv", c20Cfg{Backend: "kv", LazyViews: true, CacheSize: 1}, restartAlphabet, tier.tinyDepth, 1)
+	add("order/tiny-cache/sql", c20Cfg{Backend: "sql", LazyViews: true, CacheSize: 1}, restartAlphabet, tier.tinyDepthSQL, 1)
+	add("order/zombie-strict/kv", c20Cfg{Backend: "kv", Strict: true}, zombieAlphabet, tier.zombieDepth, 1)
+	add("order/zombie/kv", c20Cfg{Backend: "kv"}, zombieAlphabet, tier.zombieDepth, 1)
+	add("order/zombie-strict/sql", c20Cfg{Backend: "sql", Strict: true}, zombieAlphabet, tier.zombieDepthSQL, 1)
+	add("order/zombie/sql", c20Cfg{Backend: "sql"}, zombieAlphabet, tier.zombieDepthSQL, 1)
+	return sp
 }
 
 // contexts in which corruptions are delivered
@@ -667,6 +806,17 @@ func (s c20Sys) Replay(hist []string) error {
 	return nil
 }
 
+// c20SpaceDef is one ordering space.
+type c20SpaceDef struct {
+	name        string
+	cfg         c20Cfg
+	alphabet    []string
+	depth       int
+	dedup       bool
+	prefix      []string // executed on every fresh world before the explored history
+	maxRestarts int      // "restart" events per history
+}
+
 // c20OrderSpace explores all op sequences up to depth.
 //
 // Canonical key and the "same key => same futures" argument (dedup == true, one
@@ -691,18 +841,30 @@ func (s c20Sys) Replay(hist []string) error {
 // Each space is explored twice and the state/transition counts compared
 // (determinism re-check); seqmc additionally verifies on every replay that the
 // recorded key is reached again.
-func c20OrderSpace(t *testing.T, name string, cfg c20Cfg, alphabet []string, depth int, dedup bool, stats *c20Stats, deadline time.Time) seqmc.Result {
+func c20OrderSpace(t *testing.T, sp c20SpaceDef, depth int, stats *c20Stats, deadline time.Time) seqmc.Result {
+	name, cfg := sp.name, sp.cfg
 	opts := seqmc.Options{
 		New: func(int) (seqmc.Sys, error) {
 			e, err := c20NewExec(t, name, cfg, stats)
 			if err != nil {
 				return nil, err
 			}
-			e.noHist = dedup
+			e.noHist = sp.dedup
+			e.maxRestarts = sp.maxRestarts
 			e.track = c20Track()
+			// the space starts from the state its prefix leads to (the prefix is
+			// judged like any other history; it is part of every recorded case)
+			e.quiet = true
+			for _, op := range sp.prefix {
+				if err := e.Do(op); err != nil {
+					e.Close()
+					return nil, err
+				}
+			}
+			e.quiet = false
 			return c20Sys{e}, nil
 		},
-		Alphabet: alphabet, MaxDepth: depth, Workers: c20Workers(), Deadline: deadline,
+		Alphabet: sp.alphabet, MaxDepth: depth, Workers: c20Workers(), Deadline: deadline,
 		Expandable: func(key string) bool { return !strings.HasPrefix(key, "dead:") },
 		OnState: func(s seqmc.Sys, _ []string) {
 			e := s.(c20Sys).c20Exec
@@ -841,6 +1003,22 @@ func c20Worker(t *testing.T) {
 			}
 		}
 	}
+	// development aid: VERIF_C20_SPACES=<substring> runs only the matching spaces
+	// (the run is then reported as not exhaustive)
+	only := os.Getenv("VERIF_C20_SPACES")
+	if only != "" {
+		exhaustive = false
+		caps = append(caps, "VERIF_C20_SPACES="+only+": only the matching spaces were run")
+		filter := func(in []c20Case) (out []c20Case) {
+			for _, c := range in {
+				if strings.Contains(c.Space, only) {
+					out = append(out, c)
+				}
+			}
+			return out
+		}
+		semCases, byteCases = filter(semCases), filter(byteCases)
+	}
 	t0 := time.Now()
 	nSem, capped := c20RunCases(t, semCases, stats, deadline)
 	if capped {
@@ -857,17 +1035,11 @@ func c20Worker(t *testing.T) {
 	c20Info("byte corruptions: %d cases in %.1fs", nByte, time.Since(t0).Seconds())
 
 	// ---- orderings ---------------------------------------------------------
-	type spaceDef struct {
-		name     string
-		cfg      c20Cfg
-		alphabet []string
-		depth    int
-		dedup    bool
-	}
+	type spaceDef = c20SpaceDef
 	// cheapest first, so that a deadline (if any) cuts the largest space
 	spaces := []spaceDef{
-		{"order/same-peer/kv", c20Cfg{Backend: "kv", SamePeer: true}, tier.samePeerAlphabet, tier.samePeerDepth, false},
-		{"order/fresh-peers/sql", c20Cfg{Backend: "sql"}, tier.orderAlphabet, tier.orderDepthSQL, true},
+		{name: "order/same-peer/kv", cfg: c20Cfg{Backend: "kv", SamePeer: true}, alphabet: tier.samePeerAlphabet, depth: tier.samePeerDepth},
+		{name: "order/fresh-peers/sql", cfg: c20Cfg{Backend: "sql"}, alphabet: tier.orderAlphabet, depth: tier.orderDepthSQL, dedup: true},
 	}
 	// the flag / content lattice as an ordering alphabet: updates of both directions
 	// with and without the disable bit (and a reserved bit) at t and t+1, node
@@ -877,24 +1049,34 @@ func c20Worker(t *testing.T) {
 		"lCU1.cf=00.mf=01.ts=equal", "lCU1.cf=00.mf=01.ts=newer", "lCU1.cf=02.mf=01.ts=equal", "lCU1.cf=02.mf=01.ts=newer",
 		"lCU0.cf=80.mf=03.ts=older", "lCU1.cf=42.mf=03.ts=older",
 		"NA1", "lNA1.alias.ts=equal", "lNA1.alias.ts=newer", "lNA1.addr.ts=older"}
-	spaces = append(spaces, spaceDef{"order/flags/kv", c20Cfg{Backend: "kv"}, flagsAlphabet, tier.flagsDepth, true})
+	spaces = append(spaces, spaceDef{name: "order/flags/kv", cfg: c20Cfg{Backend: "kv"}, alphabet: flagsAlphabet, depth: tier.flagsDepth, dedup: true})
 	if tier.flagsSQL {
-		spaces = append(spaces, spaceDef{"order/flags/sql", c20Cfg{Backend: "sql"}, flagsAlphabet, tier.flagsDepth - 1, true})
+		spaces = append(spaces, spaceDef{name: "order/flags/sql", cfg: c20Cfg{Backend: "sql"}, alphabet: flagsAlphabet, depth: tier.flagsDepth - 1, dedup: true})
 	}
+	spaces = append(spaces, c20LifecycleSpaces(tier)...)
 	if len(tier.wideAlphabet) > 0 {
-		spaces = append(spaces, spaceDef{"order/fresh-peers-wide/kv", c20Cfg{Backend: "kv"}, tier.wideAlphabet, tier.wideDepth, true})
+		spaces = append(spaces, spaceDef{name: "order/fresh-peers-wide/kv", cfg: c20Cfg{Backend: "kv"}, alphabet: tier.wideAlphabet, depth: tier.wideDepth, dedup: true})
 	}
-	spaces = append(spaces, spaceDef{"order/fresh-peers/kv", c20Cfg{Backend: "kv"}, tier.orderAlphabet, tier.orderDepth, true})
+	spaces = append(spaces, spaceDef{name: "order/fresh-peers/kv", cfg: c20Cfg{Backend: "kv"}, alphabet: tier.orderAlphabet, depth: tier.orderDepth, dedup: true})
 	var states, transitions, replays int64
 	spaceCov := map[string]any{}
+	if only != "" {
+		var keep []spaceDef
+		for _, sp := range spaces {
+			if strings.Contains(sp.name, only) {
+				keep = append(keep, sp)
+			}
+		}
+		spaces = keep
+	}
 	for i, sp := range spaces {
 		t0 = time.Now()
-		res := c20OrderSpace(t, sp.name, sp.cfg, sp.alphabet, sp.depth, sp.dedup, stats, deadline)
+		res := c20OrderSpace(t, sp, sp.depth, stats, deadline)
 		states += res.States
 		transitions += res.Transitions
 		replays += res.Replays
 		entry := map[string]any{
-			"alphabet": sp.alphabet, "depth": sp.depth, "states": res.States, "transitions": res.Transitions,
+			"alphabet": sp.alphabet, "prefix": sp.prefix, "max_restarts": sp.maxRestarts, "cfg": sp.cfg, "depth": sp.depth, "states": res.States, "transitions": res.Transitions,
 			"self_loops": res.SelfLoops, "fresh_worlds": res.Replays, "per_depth": res.PerDepth,
 			"exhaustive": res.Exhaustive, "dedup": sp.dedup, "wall_s": time.Since(t0).Seconds(),
 		}
@@ -908,9 +1090,9 @@ func c20Worker(t *testing.T) {
 			caps = append(caps, "nondeterminism_detected in "+sp.name)
 		}
 		// determinism re-check on the first (de-duplicated) space, one level shallower
-		if i == len(spaces)-1 && res.Exhaustive && sp.depth >= 2 {
+		if i == len(spaces)-1 && res.Exhaustive && sp.depth >= 2 && only == "" {
 			scratch := newC20Stats()
-			a := c20OrderSpace(t, sp.name, sp.cfg, sp.alphabet, sp.depth-1, sp.dedup, scratch, deadline)
+			a := c20OrderSpace(t, sp, sp.depth-1, scratch, deadline)
 			var want int64
 			for d := 0; d < len(res.PerDepth) && d <= sp.depth-1; d++ {
 				want += res.PerDepth[d]
